@@ -45,6 +45,7 @@ type LeafOpts struct {
 	Expired    bool
 	SelfSigned bool
 	Client     bool
+	ValidFor   time.Duration // if non-zero: NotAfter = now + ValidFor (certificate times have one-second resolution)
 }
 
 // Leaf issues a leaf certificate (signed by ca unless SelfSigned)
@@ -56,6 +57,9 @@ func Leaf(ca *CA, o LeafOpts) tls.Certificate {
 		NotBefore: time.Now().Add(-time.Hour), NotAfter: time.Now().Add(12 * time.Hour),
 		KeyUsage:    x509.KeyUsageDigitalSignature,
 		ExtKeyUsage: []x509.ExtKeyUsage{x509.ExtKeyUsageServerAuth, x509.ExtKeyUsageClientAuth},
+	}
+	if o.ValidFor != 0 {
+		tpl.NotAfter = time.Now().Add(o.ValidFor)
 	}
 	if o.Expired {
 		tpl.NotBefore, tpl.NotAfter = time.Now().Add(-48*time.Hour), time.Now().Add(-24*time.Hour)
